@@ -46,10 +46,9 @@ Qed.
 
 Lemma all_days_ok d : 0 <= d < NDAYS -> day_ok d = true.
 Proof.
-  intros Hd. pose proof sweep_all_true as H. unfold sweep_all in H.
-  apply andb_true_iff in H. destruct H as [H H4].
-  apply andb_true_iff in H. destruct H as [H H3].
-  apply andb_true_iff in H. destruct H as [H1 H2].
+  intros Hd.
+  pose proof sweep_block1 as H1. pose proof sweep_block2 as H2.
+  pose proof sweep_block3 as H3. pose proof sweep_block4 as H4.
   unfold NDAYS in Hd.
   destruct (Z_lt_le_dec d 65536); [apply (sweep_sound 16 0 d H1); change (2 ^ Z.of_nat 16) with 65536; lia|].
   destruct (Z_lt_le_dec d 98304); [apply (sweep_sound 15 65536 d H2); change (2 ^ Z.of_nat 15) with 32768; lia|].
@@ -161,9 +160,10 @@ Proof.
     rewrite IH by assumption.
     set (qa := a / 10 ^ Z.of_nat k) in *. set (qb := b / 10 ^ Z.of_nat k) in *.
     clearbody qa qb.
-    replace (N.compare (Z.to_N (48 + qa)) (Z.to_N (48 + qb))) with (qa ?= qb).
-    + rewrite lexc_assoc. destruct (qa ?= qb); reflexivity.
-    + rewrite <- Z2N.inj_compare by lia. symmetry. apply Z.add_compare_mono_l.
+    assert (Hc : N.compare (Z.to_N (48 + qa)) (Z.to_N (48 + qb)) = (qa ?= qb)).
+    { destruct (Z.compare_spec qa qb);
+        [apply N.compare_eq_iff|apply N.compare_lt_iff|apply N.compare_gt_iff]; lia. }
+    rewrite Hc, lexc_assoc. destruct (qa ?= qb); reflexivity.
 Qed.
 
 Lemma bcmp_cons_same c r1 r2 : bcmp (c :: r1) (c :: r2) = bcmp r1 r2.
@@ -207,3 +207,138 @@ Proof.
       rewrite Z.mod_small by lia. lia.
     + clearbody p. nia.
 Qed.
+
+Lemma take_dec_dec_nil k n : 0 <= n < 10 ^ Z.of_nat k -> take_dec k (dec k n) = Some (n, []).
+Proof. intros H. rewrite <- (app_nil_r (dec k n)) at 1. apply take_dec_dec, H. Qed.
+
+(* ---------- the fields of an instant ---------- *)
+
+Definition f_days (t : Z) : Z := t / NS_DAY.
+Definition f_rem (t : Z) : Z := t mod NS_DAY.
+Definition f_secs (t : Z) : Z := f_rem t / NS_SEC.
+Definition f_ns (t : Z) : Z := f_rem t mod NS_SEC.
+Definition f_mins (t : Z) : Z := f_secs t / 60.
+Definition f_ss (t : Z) : Z := f_secs t mod 60.
+Definition f_hh (t : Z) : Z := f_mins t / 60.
+Definition f_mm (t : Z) : Z := f_mins t mod 60.
+
+Lemma format_ts_eq t y m d : civil_from_days (f_days t) = (y, m, d) ->
+  format_ts t = dec 4 y ++ dec 2 m ++ dec 2 d ++ [45%N] ++ dec 2 (f_hh t) ++ dec 2 (f_mm t) ++ dec 2 (f_ss t)
+                ++ [45%N] ++ dec 9 (f_ns t).
+Proof. intros E. unfold format_ts. unfold f_days in E. rewrite E. reflexivity. Qed.
+
+Lemma clock_bounds t :
+  0 <= f_hh t < 24 /\ 0 <= f_mm t < 60 /\ 0 <= f_ss t < 60 /\ 0 <= f_ns t < 1000000000
+  /\ (f_hh t * 3600 + f_mm t * 60 + f_ss t) * NS_SEC + f_ns t = f_rem t
+  /\ t = f_days t * NS_DAY + f_rem t.
+Proof. unfold f_hh, f_mm, f_ss, f_ns, f_mins, f_secs, f_rem, f_days, NS_SEC, NS_DAY. lia. Qed.
+
+Lemma days_range t : 0 <= t < two63z -> 0 <= f_days t < NDAYS.
+Proof. unfold f_days, two63z, NS_DAY, NDAYS. lia. Qed.
+
+Ltac pow10 :=
+  change (10 ^ Z.of_nat 2) with 100 in *; change (10 ^ Z.of_nat 4) with 10000 in *;
+  change (10 ^ Z.of_nat 9) with 1000000000 in *; change (10 ^ Z.of_nat 8) with 100000000 in *.
+
+Lemma format_ts_length t : length (format_ts t) = 25%nat.
+Proof.
+  destruct (civil_from_days (f_days t)) as [[y m] d] eqn:E. rewrite (format_ts_eq t y m d E).
+  rewrite !app_length, !dec_length. reflexivity.
+Qed.
+
+Lemma format_ts_dash t : nth 15 (format_ts t) 0%N = 45%N.
+Proof.
+  destruct (civil_from_days (f_days t)) as [[y m] d] eqn:E. rewrite (format_ts_eq t y m d E).
+  rewrite !app_assoc. rewrite <- (app_assoc _ [45%N] (dec 9 (f_ns t))). cbn [app].
+  match goal with |- nth 15 (?a ++ _ :: _) _ = _ => replace 15%nat with (length a) end.
+  - apply nth_middle.
+  - rewrite !app_length, !dec_length. reflexivity.
+Qed.
+
+Lemma frac_split_dec ns : 0 <= ns < 1000000000 -> frac_split (dec 9 ns) = (false, false, 9%nat, dec 9 ns).
+Proof.
+  intros H.
+  assert (Hd : forallb is_digit (dec 9 ns) = true) by (apply dec_digits; pow10; lia).
+  destruct (dec 9 ns) as [|c r]; [reflexivity|].
+  cbn [forallb] in Hd. apply andb_true_iff in Hd. destruct Hd as [Hc _].
+  unfold frac_split, is_digit in *.
+  replace ((c =? 43) || (c =? 45))%N with false by lia. reflexivity.
+Qed.
+
+(* Parse inverts Format on every instant 0 <= t < 2^63 *)
+Lemma time_parse_format t : 0 <= t < two63z -> time_parse (format_ts t) = Some t.
+Proof.
+  intros Ht. pose proof (days_range t Ht) as Hd.
+  destruct (civil_from_days (f_days t)) as [[y m] d] eqn:E.
+  destruct (day_facts _ y m d Hd E) as (Hy & Hm & Hdd & Hdfc & _).
+  destruct (clock_bounds t) as (Hhh & Hmm & Hss & Hns & Hrem & Hsplit).
+  pose proof (days_in_le31 m y) as H31.
+  rewrite (format_ts_eq t y m d E).
+  unfold time_parse, time_parse_br.
+  rewrite take_dec_dec by (pow10; lia). cbv iota beta.
+  rewrite take_dec_dec by (pow10; lia). cbv iota beta.
+  replace ((m <? 1) || (12 <? m)) with false by lia.
+  rewrite take_dec_dec by (pow10; lia). cbv iota beta. cbn [app].
+  change (negb (45 =? 45)%N) with false. cbv iota.
+  rewrite take_dec_dec by (pow10; lia). cbv iota beta.
+  replace (24 <=? f_hh t) with false by lia.
+  rewrite take_dec_dec by (pow10; lia). cbv iota beta.
+  replace (60 <=? f_mm t) with false by lia.
+  rewrite take_dec_dec by (pow10; lia). cbv iota beta.
+  replace (60 <=? f_ss t) with false by lia.
+  rewrite frac_split_dec by lia.
+  rewrite take_dec_dec_nil by (pow10; lia). cbv iota beta. cbn [andb].
+  replace ((d <? 1) || (days_in m y <? d)) with false by lia.
+  cbn [fst]. f_equal. rewrite Hdfc. unfold NS_SEC, NS_DAY in *. lia.
+Qed.
+
+(* every byte of a formatted in-range instant is a digit or '-' *)
+Lemma format_ts_chars t : 0 <= t < two63z ->
+  forallb (fun c => is_digit c || (c =? 45)%N) (format_ts t) = true.
+Proof.
+  intros Ht. pose proof (days_range t Ht) as Hd.
+  destruct (civil_from_days (f_days t)) as [[y m] d] eqn:E.
+  destruct (day_facts _ y m d Hd E) as (Hy & Hm & Hdd & _).
+  destruct (clock_bounds t) as (Hhh & Hmm & Hss & Hns & _).
+  pose proof (days_in_le31 m y) as H31.
+  rewrite (format_ts_eq t y m d E).
+  assert (D : forall k n, 0 <= n < 10 ^ Z.of_nat k ->
+              forallb (fun c => is_digit c || (c =? 45)%N) (dec k n) = true).
+  { intros k n Hn. pose proof (dec_digits k n Hn) as H. rewrite forallb_forall in *.
+    intros c Hc. rewrite (H c Hc). reflexivity. }
+  rewrite !forallb_app. rewrite !D by (pow10; lia). reflexivity.
+Qed.
+
+(* byte order of formatted instants (followed by anything) = order of the instants, then the rest *)
+Lemma format_ts_cmp t1 t2 r1 r2 : 0 <= t1 < two63z -> 0 <= t2 < two63z ->
+  bcmp (format_ts t1 ++ r1) (format_ts t2 ++ r2) = lexc (t1 ?= t2) (bcmp r1 r2).
+Proof.
+  intros Ht1 Ht2. pose proof (days_range t1 Ht1) as Hd1. pose proof (days_range t2 Ht2) as Hd2.
+  destruct (civil_from_days (f_days t1)) as [[y1 m1] d1] eqn:E1.
+  destruct (civil_from_days (f_days t2)) as [[y2 m2] d2] eqn:E2.
+  destruct (day_facts _ y1 m1 d1 Hd1 E1) as (Hy1 & Hm1 & Hdd1 & _).
+  destruct (day_facts _ y2 m2 d2 Hd2 E2) as (Hy2 & Hm2 & Hdd2 & _).
+  pose proof (days_in_le31 m1 y1) as H311. pose proof (days_in_le31 m2 y2) as H312.
+  destruct (clock_bounds t1) as (Hhh1 & Hmm1 & Hss1 & Hns1 & _).
+  destruct (clock_bounds t2) as (Hhh2 & Hmm2 & Hss2 & Hns2 & _).
+  rewrite (format_ts_eq t1 y1 m1 d1 E1), (format_ts_eq t2 y2 m2 d2 E2).
+  rewrite <- !app_assoc.
+  rewrite !bcmp_dec by (pow10; lia). cbn [app]. rewrite bcmp_cons_same.
+  rewrite !bcmp_dec by (pow10; lia). cbn [app]. rewrite bcmp_cons_same.
+  rewrite !bcmp_dec by (pow10; lia).
+  (* the instants, field by field *)
+  rewrite (cmp_divmod NS_DAY t1 t2) by (unfold NS_DAY; lia).
+  fold (f_days t1) (f_days t2) (f_rem t1) (f_rem t2).
+  rewrite (ymd_cmp _ _ Hd1 Hd2), E1, E2.
+  rewrite ymdnum_cmp by lia.
+  rewrite (cmp_divmod NS_SEC (f_rem t1) (f_rem t2)) by (unfold NS_SEC; lia).
+  fold (f_secs t1) (f_secs t2) (f_ns t1) (f_ns t2).
+  rewrite (cmp_divmod 60 (f_secs t1) (f_secs t2)) by lia.
+  fold (f_mins t1) (f_mins t2) (f_ss t1) (f_ss t2).
+  rewrite (cmp_divmod 60 (f_mins t1) (f_mins t2)) by lia.
+  fold (f_hh t1) (f_hh t2) (f_mm t1) (f_mm t2).
+  rewrite !lexc_assoc. reflexivity.
+Qed.
+
+Lemma lexc_lt_iff c1 c2 : c2 = Eq -> (lexc c1 c2 = Lt <-> c1 = Lt).
+Proof. intros ->. rewrite lexc_eq_r. tauto. Qed.
